@@ -50,6 +50,16 @@ impl SmolStr {
     #[verifier::external_body] pub fn to_string(&self) -> (r: String) ensures r@ == self.text() { unimplemented!() }
 }
 impl Clone for SmolStr { #[verifier::external_body] fn clone(&self) -> (r: Self) ensures r == *self { unimplemented!() } }
+/// `SmolStr::new(s)`: the SmolStr with the text of `s` (a function of the text only)
+pub uninterp spec fn smol_of(s: Seq<char>) -> SmolStr;
+/// the three constructors of LuaTypeDeclId (`ArcIntern::new(LuaTypeIdentifier::X(.., SmolStr::new(str)))`): the interned identifier is the one built
+impl LuaTypeDeclId {
+    #[verifier::external_body] pub fn global(str: &str) -> (r: Self) ensures r.ident() == LuaTypeIdentifier::Global(smol_of(str@)) { unimplemented!() }
+    #[verifier::external_body] pub fn file(file_id: FileId, str: &str) -> (r: Self) ensures r.ident() == LuaTypeIdentifier::File(file_id, smol_of(str@)) { unimplemented!() }
+    #[verifier::external_body] pub fn internal(workspace_id: WorkspaceId, str: &str) -> (r: Self) ensures r.ident() == LuaTypeIdentifier::Internal(workspace_id, smol_of(str@)) { unimplemented!() }
+    /// text after the last `.` of the name: NO contract
+    #[verifier::external_body] pub fn get_simple_name(&self) -> &str { unimplemented!() }
+}
 //@@ LuaDeclId
 //@@ LuaOperatorId
 //@@ LuaOperatorMetaMethod
@@ -178,6 +188,15 @@ impl Clone for LuaTypeOwner { #[verifier::external_body] fn clone(&self) -> (r: 
 impl LuaTypeOwner {
     //@@ LuaTypeOwner::get_file_id
 }
+/// flagset crate: `FlagSet<F>` is a Copy bit set over the `flags!`-generated enum F; `contains` without contract
+#[verifier::external_body] #[verifier::reject_recursive_types(F)] pub struct FlagSet<F> { _p: std::marker::PhantomData<F> }
+impl<F> Clone for FlagSet<F> { #[verifier::external_body] fn clone(&self) -> Self { unimplemented!() } }
+impl<F> Copy for FlagSet<F> {}
+/// the enum that `flags! { pub enum LuaTypeFlag: u8 { Key, Partial, Exact, Meta, Constructor, Public, Internal, File } }` generates
+#[derive(Clone, Copy)] pub enum LuaTypeFlag { Key, Partial, Exact, Meta, Constructor, Public, Internal, File }
+impl<F> FlagSet<F> { #[verifier::external_body] pub fn contains(self, rhs: F) -> bool { unimplemented!() } }
+//@@ LuaDeclTypeKind
+//@@ LuaTypeExtra
 //@@ LuaDeclLocation
 //@@ LuaTypeDecl
 /// helper of rule `vec-extend-vec`. std (`impl Extend<T> for Vec<T>`, `IntoIterator for Vec<T>`): "Extends a collection with the
@@ -187,6 +206,7 @@ pub fn vx_vec_extend<T>(v: &mut Vec<T>, w: Vec<T>)
     ensures final(v)@ == old(v)@ + w@,
 { v.extend(w) }
 impl LuaTypeDecl {
+    //@@ LuaTypeDecl::new
     //@@ LuaTypeDecl::get_id
     //@@ LuaTypeDecl::merge_decl
 }
@@ -200,6 +220,7 @@ pub open spec fn names_frame(o: &LuaTypeIndex, n: &LuaTypeIndex) -> bool {
 impl<N> InFiled<N> {
     //@@ InFiled::new
 }
+//@@ add_type_decl::register
 impl LuaTypeIndex {
     //@@ LuaTypeIndex::new
     //@@ LuaTypeIndex::add_file_namespace
@@ -259,7 +280,10 @@ impl LuaTableExpr { #[verifier::external_body] pub fn get_range(&self) -> TextRa
 //@@ DbIndex
 impl DbIndex {
     //@@ DbIndex::get_metatable_index_mut
+    //@@ DbIndex::get_member_index_mut
 }
+// the call site of the re-owning pair: the real `compilation::analyzer::common::add_member`
+//@@ common::add_member
 //@@ LuaAnalyzer
 //@@ analyze_setmetatable::register
 
